@@ -175,4 +175,45 @@ theorem expandRuns_addToSections (secs : List (Nat × κ)) (k : κ) (n : Nat) :
       simp [happ, expandRuns, ← List.replicate_append_replicate, List.append_assoc]
     · simp [hk, happ, expandRuns]
 
+/-! ### the nesting bound -/
+
+mutual
+theorem parseDepthI_spec (limit : Nat) : ∀ (i : Item) (depth : Nat), depth ≤ limit →
+    (depth + nestI i ≤ limit → parseDepthI limit depth i = some (depth + nestI i))
+    ∧ (limit < depth + nestI i → parseDepthI limit depth i = none)
+  | .section_ _, depth, hd => by simp [parseDepthI, nestI]; omega
+  | .module _ _, depth, hd => by simp [parseDepthI, nestI]; omega
+  | .component _ items, depth, hd => by
+    simp only [parseDepthI, nestI]
+    constructor
+    · intro h
+      have hlt : ¬ depth ≥ limit := by omega
+      simp only [hlt, if_false]
+      have := (parseDepthL_spec limit items (depth + 1) (by omega)).1 (by omega)
+      rw [this]; congr 1; omega
+    · intro h
+      by_cases hge : depth ≥ limit
+      · simp [hge]
+      · simp only [hge, if_false]
+        exact (parseDepthL_spec limit items (depth + 1) (by omega)).2 (by omega)
+theorem parseDepthL_spec (limit : Nat) : ∀ (is : List Item) (depth : Nat), depth ≤ limit →
+    (depth + nestL is ≤ limit → parseDepthL limit depth is = some (depth + nestL is))
+    ∧ (limit < depth + nestL is → parseDepthL limit depth is = none)
+  | [], depth, hd => by simp [parseDepthL, nestL]; omega
+  | i :: is, depth, hd => by
+    have h1 := parseDepthI_spec limit i depth hd
+    have h2 := parseDepthL_spec limit is depth hd
+    simp only [parseDepthL, nestL]
+    constructor
+    · intro h
+      rw [h1.1 (by omega), h2.1 (by omega)]
+      simp only [Option.some.injEq]; omega
+    · intro h
+      by_cases hi : limit < depth + nestI i
+      · rw [h1.2 hi]
+      · rw [h1.1 (by omega)]
+        have : limit < depth + nestL is := by omega
+        rw [h2.2 this]
+end
+
 end Orca.Comp
